@@ -23,7 +23,7 @@ ASSUMPTIONS = [
     "empty reads with data remaining, premature EOF and partial lines",
     "slice matching is greedy earliest-occurrence (sound for 'non-overlapping slices in stream order')",
 ]
-GATES = ["frames_checked", "delivered_after_fault", "plans_enumerated", "directed_double_faults", "socket_runs",
+GATES = ["frames_checked", "delivered_after_fault", "plans_enumerated", "directed_double_faults", "directed_consecutive_shorts", "socket_runs",
          "socket_delivered_with_faults"]
 GATES_ZERO = ["budget_exceeded"]
 
@@ -73,6 +73,17 @@ def make_stream(rng, small=False, marks=None):
             x_ = b"\xd3" + (len(interior) - 3).to_bytes(2, "big") + interior  # last 3 bytes of A sit where X's CRC goes
             n_ = bytes(rng.choice(streams.INERT) for _ in range(rng.randint(0, 5))).replace(b"\n", b"x") + b"\n"
             parts.append(x_ + n_ + b_)
+            foreign = True
+            continue
+        if 0.34 <= kk < 0.37:
+            # header | payload | k stray bytes | trailer that is valid for header+payload: never a frame of the input
+            # (a reader that over-reads and trims after RETRIED short reads would deliver header|payload|trailer)
+            v = refcrc.frame(streams.rand_unknown_payload(rng, rng.randint(8, 40)))
+            kstray = rng.randint(1, 5)
+            stray = bytes(rng.choice(streams.INERT) for _ in range(kstray))
+            if marks is not None:
+                marks.append(("stray", sum(len(x) for x in parts), (len(v) - 6, kstray)))
+            parts.append(v[:-3] + stray + v[-3:])
             foreign = True
             continue
         if kk < 0.34:  # length field lies about the enclosed size; trailer valid for the bytes present
@@ -306,8 +317,9 @@ def run(ctx):
     for _ in range(ctx.n(600, 12000)):
         marks = []
         data, foreign = make_stream(rng, small=True, marks=marks)
-        lies = [m for m in marks if m[2][1] > m[2][0]]
-        if not lies:
+        lies = [m for m in marks if m[0] == "length-lie" and m[2][1] > m[2][0]]
+        strays = [m for m in marks if m[0] == "stray"]
+        if not lies and not strays:
             continue
         probe = doubles.RecordingStream(data, budget=3 * len(data) + 16)
         try:
@@ -317,6 +329,17 @@ def run(ctx):
                 pass
         except BaseException:
             pass
+        for kind, start, (n_, ks) in strays:
+            # the payload read answered by consecutive SHORT reads (2 and 3 in a row), the second of them exactly as
+            # long as the stray run: a retry loop that miscounts what is still missing swallows the stray bytes
+            seqs = [q for q, what, off, req, got, f in probe.log if what == "read" and off == start + 3 and req == n_]
+            for q in seqs[:1]:
+                mode = rng.choice((0, 1, 2))
+                j = rng.randint(1, n_ - ks - 1)
+                run_case(ctx, data, {q: ["short", j], q + 1: ["short", ks]}, mode, 0, True, "directed")
+                run_case(ctx, data, {q: ["short", j], q + 1: ["short", ks], q + 2: ["short", 1]}, mode, 0, True, "directed")
+                run_case(ctx, data, {q: ["short", j], q + 1: ["short", rng.randint(1, 5)]}, mode, 0, True, "directed")
+                ctx.hit("directed_consecutive_shorts")
         for kind, start, (a, d) in lies:
             seqs = [q for q, what, off, req, got, f in probe.log if what == "read" and off == start + 3 and req == d]
             for q in seqs[:1]:
